@@ -49,7 +49,7 @@ setup_worker = common.setup_worker
 def cases(tier, seed):
   out = []
   q = tier == 'quick'
-  nh = 6 if q else 40
+  nh = 6 if q else 60
   for name in E.ALL:
     for h in range(nh):
       r = rng_for('c17', seed, name, h)
